@@ -242,6 +242,7 @@ func checkC15(c *Ctx, r *Report) {
 	r.rule("C15.R4", "file shape: header, then per record header + exactly the payload", 1)
 	r.rule("C15.R6", "every buffer an encoder assembles its octets in is empty when the first octet is written (fresh, or emptied by a Reset that dominates every write)", 3)
 	r.rule("C15.R5", "the file on disk is replaced by exactly the encoded octets (truncating write)", 1)
+	r.rule("C15.R7", "the encoders write the members of the object they are given: no member of the receiver is assigned or taken from elsewhere", 3)
 
 	l := loadLayouts(c)
 	// header
@@ -295,6 +296,7 @@ func checkC15(c *Ctx, r *Report) {
 	c14Compare(c, r, l, true)
 	fileReplaced(c, r, "C15.R5")
 	buffersStartEmpty(c, r, "C15.R6", l.hdrFn, l.recFn, l.fileFn)
+	encodersWriteWhatGiven(c, r, "C15.R7", l.hdrFn, l.recFn, l.fileFn)
 }
 
 func c15Order(r *Report, key string, segs []seg, c *Ctx, f *ssa.Function) {
@@ -325,9 +327,11 @@ func checkC14(c *Ctx, r *Report) {
 	r.rule("C14.R1", "decoder reads every encoded field from the offset/width/bits the encoder writes it at, for every release-identifier combination", 8)
 	r.rule("C14.R2", "decoder offset arithmetic cannot wrap", 1)
 	r.rule("C14.R3", "record loop: starts after the header, advances by header + CdrLength, payload is exactly CdrLength octets, runs NumberOfCdrsInFile times", 4)
+	r.rule("C14.R4", "the encoders write what they are given: members unmodified (shared with C15.R7), file shape header + records (shared with C15.R4)", 4)
 	l := loadLayouts(c)
 	c14Compare(c, r, l, false)
 	c14Wrap(c, r, l)
+	r.shareFrom(c, checkC15, map[string]string{"C15.R7": "C14.R4", "C15.R4": "C14.R4"})
 }
 
 // c14Compare compares the decoder with the encoder (C14) or with the table (C15).
